@@ -150,7 +150,7 @@ func (p *Subscribe) UnmarshalBinary(data []byte) error {
 		b.get(&f.filter)
 		b.get(&f.options)
 		p.filters = append(p.filters, f)
-		if b.i == len(data) {
+		if b.err != nil || b.i == len(data) {
 			break
 		}
 	}
